@@ -81,6 +81,11 @@ pub fn run(seed: u64, n: usize, driver: &str, out: &str) -> serde_json::Value {
         let pal: Vec<f32> = (0..rng.range(1, 5)).map(|_| *rng.pick(&cg)).collect();
         let hpal: Vec<f32> = (0..rng.range(1, 4)).map(|_| *rng.pick(&hg)).collect();
         let mut items: Vec<Item> = vec![];
+        // a random arrangement of the encoding names (so that e.g. `ascii` lands anywhere, also as an alternative)
+        let mut order: Vec<&str> = ENCS.to_vec();
+        for k in (1..order.len()).rev() {
+            order.swap(k, rng.below(k + 1));
+        }
         for i in 0..len {
             let payload_len = 50 + rng.below(50);
             let chars = rng.range(1, payload_len);
@@ -94,7 +99,7 @@ pub fn run(seed: u64, n: usize, driver: &str, out: &str) -> serde_json::Value {
             };
             let chaos = if rng.chance(1, 6) { *rng.pick(&cg) } else { *rng.pick(&pal) };
             let coh = if rng.chance(1, 4) { "-".to_string() } else { format!("English:{}", fbits(*rng.pick(&hpal))) };
-            let enc = ENCS[i % ENCS.len()].to_string();
+            let enc = order[i % order.len()].to_string();
             let payload: Vec<u8> = if heavy {
                 vec![b'x'; charset_normalizer_rs::consts::TOO_BIG_SEQUENCE + 1 + rng.below(3)]
             } else {
@@ -116,8 +121,8 @@ pub fn run(seed: u64, n: usize, driver: &str, out: &str) -> serde_json::Value {
             };
             let rl = matches_lines(&real);
             let ml = drv.container(mode, &items);
-            let strip = |ls: &Vec<String>| -> Vec<String> { ls.iter().filter(|l| !l.starts_with("A ")).cloned().collect() };
-            let (rl, ml) = (strip(&rl), strip(&ml));
+            // accessor lines (coherence, multi-byte usage, percents, most probable language, languages,
+            // ranges, candidates) are part of the comparison
             let same = if real.len() <= 20 {
                 rl == ml
             } else {
@@ -137,6 +142,10 @@ pub fn run(seed: u64, n: usize, driver: &str, out: &str) -> serde_json::Value {
             let before = violations.len();
             for f in check_c08(&real) {
                 violations.push(json!({"prop": "C08", "what": f.what, "known": null,
+                    "case": {"mode": mode, "items": items.iter().map(|i| json!({"enc": i.0, "chaos_bits": i.1, "coh": i.3, "payload_len": i.4.len(), "text": i.5})).collect::<Vec<_>>()}}));
+            }
+            for f in check_mpl(&real) {
+                violations.push(json!({"prop": "C10", "what": f.what, "known": null,
                     "case": {"mode": mode, "items": items.iter().map(|i| json!({"enc": i.0, "chaos_bits": i.1, "coh": i.3, "payload_len": i.4.len(), "text": i.5})).collect::<Vec<_>>()}}));
             }
             let ritems: Vec<&CharsetMatch> = real.iter().collect();
